@@ -51,7 +51,7 @@ class Seam:
 
         if self.installed:
             return
-        self._orig = (S.__dict__.get("open", None), S.NamedTemporaryFile, S.os, S.shutil)
+        self._orig = (S.__dict__.get("open", None), S.NamedTemporaryFile, S.os, S.__dict__.get("shutil", None))
         S.open = self.open
         S.NamedTemporaryFile = self.named_temporary_file
         S.os = OsProxy(self)
@@ -68,7 +68,11 @@ class Seam:
             del S.open
         else:
             S.open = o
-        S.NamedTemporaryFile, S.os, S.shutil = n, os_, sh
+        S.NamedTemporaryFile, S.os = n, os_
+        if sh is None:
+            S.__dict__.pop("shutil", None)
+        else:
+            S.shutil = sh
         self.installed = False
 
     # ------------------------------------------------------------------ steps
